@@ -168,9 +168,9 @@ func skipInit(path string) bool {
 	switch path {
 	case "runtime", "os", "syscall", "net", "reflect", "time", "sync", "sync/atomic",
 		"internal/poll", "internal/cpu", "internal/godebug", "os/signal", "os/exec", "os/user",
-		"crypto/tls", "crypto/x509", "net/http", "log", "math/rand", "math/big", "crypto/rand",
+		"crypto/tls", "crypto/x509", "log", "math/rand", "math/big", "crypto/rand",
 		"internal/syscall/unix", "internal/testlog", "internal/bisect", "vendor/golang.org/x/net/idna",
-		"encoding/json", "encoding/xml", "encoding/gob", "html", "mime", "mime/multipart", "net/textproto",
+		"encoding/json", "encoding/xml", "encoding/gob", "html", "mime", "mime/multipart",
 		"github.com/henrylee2cn/goutil/coarsetime", "github.com/henrylee2cn/goutil/graceful",
 		"github.com/henrylee2cn/goutil/pool", "flag", "testing", "unicode", "text/template", "html/template",
 		"go/token", "go/ast", "go/parser", "go/format", "go/printer", "go/scanner", "go/build",
@@ -178,6 +178,9 @@ func skipInit(path string) bool {
 		"crypto/aes", "crypto/cipher", "crypto/des", "crypto/elliptic", "crypto/ecdsa", "crypto/rsa", "crypto/ed25519",
 		"github.com/henrylee2cn/cfgo", "github.com/henrylee2cn/goutil/errors", "errors":
 		return true
+	}
+	if path == "net/http" || path == "net/textproto" || path == "net/url" || path == "vendor/golang.org/x/net/http/httpguts" || path == "net/http/internal/ascii" || path == "net/http/internal" {
+		return false
 	}
 	for _, pre := range []string{"runtime/", "internal/", "crypto/", "vendor/", "golang.org/x/", "net/", "google.golang.org/", "github.com/golang/protobuf", "github.com/gogo/protobuf",
 		"github.com/lucas-clemente", "github.com/xtaci", "github.com/klauspost", "github.com/templexxx", "github.com/tjfoc", "github.com/marten-seemann", "github.com/cheekybits", "github.com/francoispqt",
